@@ -84,6 +84,7 @@ Qed.
 
 (* ------------------------------------------------------------------ the job loop *)
 Section Jobs.
+  Variable bits : Z.
   Variable A : Type.
   Variable zero : A.
   Variable add : A -> A -> A.
@@ -143,12 +144,12 @@ Section Jobs.
     rewrite <- Hg. rewrite IH by lia. reflexivity.
   Qed.
 
-  Lemma job_spec lo hi : 0 <= lo <= hi -> hi < prodZ lims -> hi <= INT_MAX ->
-    job A zero add St s_init s_step s_addend lims lo hi =
+  Lemma job_spec lo hi : 0 <= lo <= hi -> hi < prodZ lims -> hi <= int_max bits ->
+    job bits A zero add St s_init s_step s_addend lims lo hi =
     Some (sumf zero (map f (zrange lo (Z.to_nat (hi - lo + 1))))).
   Proof.
     intros Hlo Hhi Hint. unfold job.
-    rewrite (construct_spec lims lo Hok) by lia.
+    rewrite (construct_spec bits lims lo Hok) by lia.
     change (set_offset_max (counter_at lims lo (prodZ lims - 1)) hi) with (counter_at lims lo hi).
     simpl c_gray. rewrite init_direct by (apply gcode_in_box; auto; lia).
     rewrite job_steps_spec by lia.
@@ -164,8 +165,8 @@ Section Jobs.
   Qed.
 
   (* for every admissible job count the parallel section returns the reference sum *)
-  Theorem jobs_total_eq_ref K : 1 <= K <= prodZ lims -> prodZ lims - 1 <= INT_MAX ->
-    jobs_total A zero add St s_init s_step s_addend lims K =
+  Theorem jobs_total_eq_ref K : 1 <= K <= prodZ lims -> prodZ lims - 1 <= int_max bits ->
+    jobs_total bits A zero add St s_init s_step s_addend lims K =
     Some (ref_total A zero add St s_addend direct lims).
   Proof.
     intros HK Hint. unfold jobs_total, ref_total.
@@ -182,9 +183,9 @@ Section Jobs.
   Qed.
 
   Corollary jobs_independent K K' : 1 <= K <= prodZ lims -> 1 <= K' <= prodZ lims ->
-    prodZ lims - 1 <= INT_MAX ->
-    jobs_total A zero add St s_init s_step s_addend lims K =
-    jobs_total A zero add St s_init s_step s_addend lims K'.
+    prodZ lims - 1 <= int_max bits ->
+    jobs_total bits A zero add St s_init s_step s_addend lims K =
+    jobs_total bits A zero add St s_init s_step s_addend lims K'.
   Proof. intros. rewrite !jobs_total_eq_ref; auto. Qed.
 End Jobs.
 
